@@ -198,3 +198,21 @@ Proof.
     destruct (x <? z) eqn:C3; [reflexivity|]. destruct (z <? x) eqn:C4; [discriminate|].
     intros H2. eapply IH; eassumption.
 Qed.
+
+(* ---- split_at ---- *)
+Lemma split_at_app {A} (a b : list A) : split_at (length a) (a ++ b) = Some (a, b).
+Proof. induction a as [|x a IH]; cbn [length split_at app]; [reflexivity|]. now rewrite IH. Qed.
+
+Lemma split_at_short {A} (n : nat) (s : list A) : (length s < n)%nat -> split_at n s = None.
+Proof.
+  revert s. induction n as [|n IH]; intros s H; [lia|]. destruct s as [|x s]; [reflexivity|].
+  cbn [split_at]. rewrite IH; [reflexivity|]. cbn in H. lia.
+Qed.
+
+Lemma split_at_firstn_skipn {A} (n : nat) (s : list A) a t : split_at n s = Some (a, t) -> a = firstn n s /\ t = skipn n s /\ length a = n.
+Proof.
+  revert s a t. induction n as [|n IH]; intros s a t H; cbn in H.
+  - inversion H. subst. repeat split.
+  - destruct s as [|x s]; [discriminate|]. destruct (split_at n s) as [[a' t']|] eqn:E; [|discriminate].
+    inversion H. subst. destruct (IH s a' t E) as (E1 & E2 & E3). subst. cbn. repeat split; congruence.
+Qed.
